@@ -36,6 +36,10 @@ pub fn load() -> Vec<Finding> {
 /// exclusion is reported in the evidence.
 pub fn is_open(tag: &str) -> bool {
 	use std::sync::OnceLock;
+	// witnesses of known findings are replayed with nothing avoided and nothing relaxed
+	if std::env::var_os("KVERIF_IGNORE_KNOWN").is_some() {
+		return false;
+	}
 	static CACHE: OnceLock<Vec<Finding>> = OnceLock::new();
 	CACHE
 		.get_or_init(load)
